@@ -56,10 +56,26 @@ def gen_history(rng):
         # an attempt to close with an error value that cannot be sent (refused with an exception) comes first: it must
         # leave the channel as it was, the real close that follows works as always
         "failed_error_close_first": how == "close" and rng.random() < 0.3,
+        # "by dropping its last reference": the drop itself ends the conversation, without waiting for a run of the cyclic
+        # garbage collector - also when channel files had been made from the channel
+        "drop_without_gc": how.startswith("drop") and rng.random() < 0.5,
+        "files_made_before_drop": rng.choice(((), ("w",), ("r",), ("w", "r"))) if how == "drop" else (),
     }
 
 
 def run_history(res: Result, lab, h, label, hid):
+    if not h.get("drop_without_gc"):
+        return _run_history(res, lab, h, label, hid)
+    gc.collect()
+    gc.disable()
+    res.count("drops_without_a_collector_run")
+    try:
+        return _run_history(res, lab, h, label, hid)
+    finally:
+        gc.enable()
+
+
+def _run_history(res: Result, lab, h, label, hid):
     from execnet.gateway_base import RemoteError
 
     how = h["how"]
@@ -175,6 +191,9 @@ def run_history(res: Result, lab, h, label, hid):
                 hello_err.append(f"{type(e).__name__}: {e}")
             if hello[:1] != [("hello", hid)]:
                 hello_err.append(f"got {hello!r}")
+        for mode in h.get("files_made_before_drop", ()):
+            f_ = ch.makefile(mode)
+            del f_
         for s in range(k):
             ch.send((hid, s, pad))
         if how == "close":
@@ -215,8 +234,9 @@ def run_history(res: Result, lab, h, label, hid):
                 closer_log["second_close"] = "silent"
             except BaseException as e:  # noqa
                 closer_log["second_close"] = type(e).__name__
-        del ch
-        gc.collect()
+        del ch, hello
+        if not h.get("drop_without_gc"):
+            gc.collect()
         close_issued.set()
 
     ct = threading.Thread(target=closing_side, daemon=True)
